@@ -118,7 +118,7 @@ def gen_case(rng, tier, with_bad=False):
             steps.append({"f": "enable", "names": chosen, "kw": [[k_, frac_s(v)] for k_, v in kw.items()]})
             depth += len(chosen)
         elif r < 0.45 and depth > 0:
-            n = rng.choice([1, 1, 2, None])
+            n = rng.choice([1, 1, 2, None, 0])      # (0: nothing is disabled)
             steps.append({"f": "disable", "n": n})
             depth = 0 if n is None else max(0, depth - n)
         else:
